@@ -303,62 +303,104 @@ func checkHysteresis(c *Ctx) {
 		})
 		c.Check(r1 && r2, "R5", name+" resets both counters", fn.Pos(), "both counters reset on a health flip", "a health flip does not reset both counters: the next flip needs fewer than the configured number of results")
 	}
-	// monitor
-	mon := p.Func("proc/internal/hc", "(*Monitor).checkHostAndUpdateStatus")
+	// monitor: the function that runs one check and everything it calls statically
+	checkHost := p.Func("proc/internal/hc", "(*Monitor).checkHost")
+	if checkHost == nil {
+		c.Unresolved("R5", "(*Monitor).checkHost")
+		return
+	}
+	var mon *ssa.Function
+	var chk *ssa.Call
+	for _, ed := range p.callersOf(checkHost) {
+		if call, ok := ed.Site.(*ssa.Call); ok {
+			mon, chk = ed.Caller.Func, call
+		}
+	}
 	if mon == nil {
-		c.Unresolved("R5", "(*Monitor).checkHostAndUpdateStatus")
+		c.Fail("R5", "monitor calls", checkHost.Pos(), "nothing calls the health check")
 		return
 	}
-	var chk, incS, incF, markH, markU *ssa.Call
-	eachInstr(mon, func(_ *ssa.BasicBlock, _ int, in ssa.Instruction) {
-		call, ok := in.(*ssa.Call)
-		if !ok {
-			return
+	findCall := func(name string) (*ssa.Call, *ssa.Function) {
+		for _, f := range withHelpers(mon) {
+			var hit *ssa.Call
+			eachInstr(f, func(_ *ssa.BasicBlock, _ int, in ssa.Instruction) {
+				if call, ok := in.(*ssa.Call); ok {
+					if g := calleeFn(call.Common()); g != nil && g.Name() == name {
+						hit = call
+					}
+				}
+			})
+			if hit != nil {
+				return hit, f
+			}
 		}
-		g := calleeFn(call.Common())
-		if g == nil {
-			return
-		}
-		switch g.Name() {
-		case "checkHost":
-			chk = call
-		case "IncSuccessfulCount":
-			incS = call
-		case "IncFailedCount":
-			incF = call
-		case "MarkHostHealthy":
-			markH = call
-		case "MarkHostUnhealthy":
-			markU = call
-		}
-	})
-	if chk == nil || incS == nil || incF == nil || markH == nil || markU == nil {
-		c.Fail("R5", "monitor calls", mon.Pos(), "the monitor does not check, count and mark in one function")
+		return nil, nil
+	}
+	incS, fS := findCall("IncSuccessfulCount")
+	incF, fF := findCall("IncFailedCount")
+	markH, _ := findCall("MarkHostHealthy")
+	markU, _ := findCall("MarkHostUnhealthy")
+	if incS == nil || incF == nil || markH == nil || markU == nil {
+		c.Fail("R5", "monitor calls", mon.Pos(), "the monitor does not check, count and mark")
 		return
 	}
-	c.Check(condEdge(incS.Block(), chk, true) && condEdge(incF.Block(), chk, false), "R5", "outcome -> counter", mon.Pos(), "success result increments the success counter, failure the failure counter", "check outcomes are counted on the wrong counter")
+	// an instruction of mon "performs" X if it is X or a call of a helper that performs X on every path
+	performs := func(target *ssa.Call) func(ssa.Instruction) bool {
+		return p.deepMatcher(func(in ssa.Instruction) bool { return in == ssa.Instruction(target) }, 2)
+	}
+	underEdge := func(target *ssa.Call, want bool) bool {
+		m := performs(target)
+		ok := false
+		eachInstr(mon, func(b *ssa.BasicBlock, _ int, in ssa.Instruction) {
+			if m(in) && condEdge(b, chk, want) {
+				ok = true
+			}
+		})
+		return ok
+	}
+	c.Check(underEdge(incS, true) && underEdge(incF, false), "R5", "outcome -> counter", mon.Pos(), "success result increments the success counter, failure the failure counter", "check outcomes are counted on the wrong counter")
 	// every path counts exactly one
-	isInc := func(in ssa.Instruction) bool { return in == ssa.Instruction(incS) || in == ssa.Instruction(incF) }
-	path := escapesWithout(entryPos(mon), isInc)
+	mS, mF := performs(incS), performs(incF)
+	path := escapesWithout(entryPos(mon), func(in ssa.Instruction) bool { return mS(in) || mF(in) })
 	c.Check(path == nil, "R5", "every outcome is counted", mon.Pos(), "every path crosses exactly one increment", "a check outcome is dropped without touching the counters ("+p.pathString(path)+"): results that agree with the current state no longer restart the opposite count, so contrary results accumulate instead of having to be consecutive")
 	// thresholds
 	thr := func(inc, mark *ssa.Call, field, label string) {
 		ok := false
 		for _, r := range *inc.Referrers() {
 			bo, isBo := r.(*ssa.BinOp)
-			if !isBo || (bo.Op != token.GTR && bo.Op != token.GEQ) || bo.X != ssa.Value(inc) {
+			if !isBo || bo.X != ssa.Value(inc) {
+				continue
+			}
+			holds := -1 // successor index on which count >(=) threshold holds
+			switch bo.Op {
+			case token.GTR, token.GEQ:
+				holds = 0
+			case token.LEQ, token.LSS:
+				holds = 1
+			default:
 				continue
 			}
 			f, _ := loadedField(stripConv(bo.Y))
-			if f == nil || f.Name() != field {
+			if f == nil || f.Name() != field || mark.Parent() != inc.Parent() {
 				continue
 			}
-			if condEdge(mark.Block(), bo, true) {
+			// the mark is reachable only through the edge on which the threshold is exceeded
+			isMark := func(x ssa.Instruction) bool { return x == ssa.Instruction(mark) }
+			reach := findPath(posOf(inc), pathQuery{target: isMark}) != nil
+			bypass := findPath(posOf(inc), pathQuery{target: isMark, edge: func(b *ssa.BasicBlock, k int) bool {
+				if iff, isIf := b.Instrs[len(b.Instrs)-1].(*ssa.If); isIf && iff.Cond == ssa.Value(bo) && k == holds {
+					return false
+				}
+				return true
+			}}) != nil
+			if reach && !bypass {
 				ok = true
 			}
 		}
-		c.Check(ok, "R5", label, inc.Pos(), "count > "+field+" (or >=) dominates the matching mark", "the "+label+" is not `own count >(=) "+field+"` guarding the matching mark function")
+		c.Check(ok, "R5", label, inc.Pos(), "count > "+field+" (or >=) guards the matching mark", "the "+label+" is not `own count >(=) "+field+"` guarding the matching mark function")
 	}
+	_ = fS
+	_ = fF
 	thr(incS, markH, "RiseThreshold", "rise threshold pairing")
 	thr(incF, markU, "FallThreshold", "fall threshold pairing")
 	c.Expect("R5", 8)
